@@ -594,3 +594,7 @@ T('C12', 'junction-tree-drops-nested-cliques', [(JT, "        self.cliques = [tu
                                                  "        cliques = [tuple(cl) for cl in cliques]\n        self.cliques = [c for c in cliques if not any(set(c) < set(o) for o in cliques)]\n")])
 K('C14', 'datavector-memory-order', [(F, "            return self.values.flatten()\n", "            return self.values.ravel(order='A')\n")], 'axis-by-name')
 T('C14', 'datavector-explicit-row-major', [(F, "            return self.values.flatten()\n", "            return self.values.flatten(order='C')\n")])
+
+# ------------------------------------------------------------------ every property: local variables renamed throughout the tree
+for _p in ['C11', 'C12', 'C01', 'C02', 'C04', 'C05', 'C06', 'C07', 'C08', 'C09', 'C10', 'C13', 'C14', 'C15', 'C16', 'C18', 'C19', 'C20']:
+    MUTANTS.append({'prop': _p, 'id': 'locals-renamed-tree', 'kind': 'T', 'edits': 'RENAME'})
